@@ -533,7 +533,7 @@ func Run(o *core.Options) int {
 	}
 	cfgs := []cfg{{hx.Memory, 3, 4}, {hx.SQLite, 3, 3}}
 	if o.Thorough() {
-		cfgs = []cfg{{hx.Memory, 4, 5}, {hx.SQLite, 4, 4}}
+		cfgs = []cfg{{hx.Memory, 4, 6}, {hx.SQLite, 4, 4}}
 	}
 	per := map[string]any{}
 	for _, c := range cfgs {
